@@ -162,6 +162,7 @@ PROPS["C11"] = {
     "monitors": ["C11"],
     "fields": ["ret", "pj", "pd", "sj", "sje"],
     "campaign": camp([("conc", 1500)], [("conc", 30000)]),
+    "enumerate_schedules": True,
     "assumptions": ["interleaving granularity = acquisitions of the state lock (the only shared state is on disk and re-read inside every critical section; what a thread does between two sections depends on its own data only)",
                     "std::sync::Mutex gives mutual exclusion; the harness's scheduler parks each participating thread in the before_lock hook, so every real schedule at this granularity can be forced and replayed",
                     "one update at a time (the update lock); the other thread issues launch reports, queries and checks; init/restart during an episode are excluded (a second init is inert by C14, a restart ends the process)",
